@@ -367,6 +367,75 @@ theorem known_hosts_absent (hm : Str → Str → Str → Option Bool) (lines : L
       exact known_hosts_nothing_for_others hm lines name hno v this
     · exact h1
 
+/-! ## a lookup is a function of (file, name): independent of every earlier lookup on the object -/
+
+/-- the call graphs below `SSHConfig.lookup` and `SSHKnownHosts.lookup` store nothing on `self`, the class or
+    module globals (generated from the AST; a cache added to a lookup path breaks this theorem) -/
+theorem lookup_paths_store_nothing : cfgLookupWrites = [] ∧ khLookupWrites = [] := by decide
+
+theorem khHistory_aux (hm : Str → Str → Str → Option Bool) (d : Dict (Str × Str)) (names : List Str) :
+    ∀ acc : List (Except Err (Option (Str × Str))),
+      names.foldl (fun acc n => let s := khStep hm acc.1 n; (s.1, acc.2 ++ [s.2])) (d, acc) =
+        (d, acc ++ names.map (khLookup hm d)) := by
+  induction names with
+  | nil => intro acc; simp
+  | cons n ns ih =>
+    intro acc
+    rw [List.foldl_cons]
+    show List.foldl _ (d, acc ++ [khLookup hm d n]) ns = _
+    rw [ih]; simp
+
+/-- **C16 lookup_is_stateless (known_hosts)**: on ONE SSHKnownHosts object, after ANY history of lookups,
+    every answer is what a single lookup of that name on a fresh object returns, and the object is unchanged -/
+theorem known_hosts_lookup_is_stateless (hm : Str → Str → Str → Option Bool) (lines : List KHLine)
+    (names : List Str) :
+    khHistory hm (khBuild lines) names = (khBuild lines, names.map (khLookup hm (khBuild lines))) := by
+  unfold khHistory
+  rw [khHistory_aux]; simp
+
+theorem cfgHistory_aux (mc : List Char) (d : Dict Entry) (names : List Str) :
+    ∀ acc : List (Except Err Entry),
+      names.foldl (fun acc n => let s := cfgStep mc acc.1 n; (s.1, acc.2 ++ [s.2])) (d, acc) =
+        (d, acc ++ names.map (lookup mc d)) := by
+  induction names with
+  | nil => intro acc; simp
+  | cons n ns ih =>
+    intro acc
+    rw [List.foldl_cons]
+    show List.foldl _ (d, acc ++ [lookup mc d n]) ns = _
+    rw [ih]; simp
+
+/-- **C16 lookup_is_stateless (ssh config)**: the same for ONE SSHConfig object; each answer equals
+    `SSHConfig(file).lookup(name)` on a fresh object (`lookupCfg`) -/
+theorem lookup_is_stateless (mc : List Char) (parsed : List Entry) (d : Dict Entry)
+    (hb : build mc parsed = .ok d) (names : List Str) :
+    cfgHistory mc d names = (d, names.map (lookupCfg mc parsed)) := by
+  unfold cfgHistory
+  rw [cfgHistory_aux]
+  simp only [List.nil_append, Prod.mk.injEq, true_and]
+  apply List.map_congr_left
+  intro n _
+  simp [lookupCfg, hb, bind, Except.bind]
+
+/-- **ssh_config_factory**: the object handed out for a path already in the cache is the one built the
+    first time, the cache is unchanged, and lookups through it agree with lookups on a fresh SSHConfig of
+    the same file -/
+theorem factory_cached_agrees (mc : List Char) (cache : Dict (Dict Entry)) (path : Str) (parsed : List Entry)
+    (c1 : Dict (Dict Entry)) (d1 : Dict Entry) (hnew : cache.get? path = none)
+    (h1 : factory mc cache path parsed = .ok (c1, d1)) :
+    factory mc c1 path parsed = .ok (c1, d1) ∧ build mc parsed = .ok d1 ∧
+    ∀ names, (cfgHistory mc d1 names).2 = names.map (lookupCfg mc parsed) := by
+  unfold factory at h1
+  simp only [hnew] at h1
+  cases hb : build mc parsed with
+  | error e => simp [hb, bind, Except.bind] at h1
+  | ok d =>
+    simp only [hb, bind, Except.bind, Except.ok.injEq, Prod.mk.injEq] at h1
+    obtain ⟨rfl, rfl⟩ := h1
+    refine ⟨?_, rfl, fun names => by rw [lookup_is_stateless mc parsed d hb names]⟩
+    unfold factory
+    simp [Dict.get?_set]
+
 /-! ## non-vacuity: concrete values inside each quantifier / satisfying each hypothesis -/
 
 /-- a config in the shape of the fixture of tests/unit/test_ssh_config.py plus a two-pattern block:
@@ -407,6 +476,11 @@ def exKH : List KHLine :=
    ⟨['|', '1', '|', 'S', '|', 'H'], (['r', 's', 'a'], ['C'])⟩]
 def exHM : Str → Str → Str → Option Bool := fun salt hash name =>
   some (salt == ['S'] && hash == ['H'] && name == ['h', '3'])
+
+/-- a history: hashed hit, miss, listed hit, the hashed hit again -/
+example : (khHistory exHM (khBuild exKH) [['h', '3'], ['h'], ['h', '1', '0'], ['h', '3']]).2 =
+    [.ok (some (['r', 's', 'a'], ['C'])), .ok none, .ok (some (['e', 'd'], ['B'])), .ok (some (['r', 's', 'a'], ['C']))] := by
+  rfl
 
 example : khLookup exHM (khBuild exKH) ['h', '3'] = .ok (some (['r', 's', 'a'], ['C'])) ∧
     khLookup exHM (khBuild exKH) ['h', '1', '0'] = .ok (some (['e', 'd'], ['B'])) ∧
